@@ -48,6 +48,8 @@ class DataCollection:
         self.datasets: list[DataSet] = []
         self.write_to_disk = threading.Event()
         self.write_finished = threading.Event()
+        # The two events change together: guard each pair so that neither thread can see (or overwrite) half a hand-off.
+        self._handoff = threading.Lock()
 
         ex_base_path = self.metadata.expand_format(base_path)
         p = pathlib.Path(ex_base_path)
@@ -144,8 +146,9 @@ class DataCollection:
             while not self.write_finished.wait(0.250):
                 pass
 
-        self.write_to_disk.clear()
-        self.write_finished.clear()
+        with self._handoff:
+            self.write_to_disk.clear()
+            self.write_finished.clear()
 
         # Close all the Data Set files in the collection
         for ds in self.datasets:
@@ -202,8 +205,9 @@ class DataCollection:
         for ds in self.datasets:
             ds.stage_for_write()
 
-        self.write_finished.clear()
-        self.write_to_disk.set()
+        with self._handoff:
+            self.write_finished.clear()
+            self.write_to_disk.set()
 
         if not self.use_thread:
             self.blocking_write()
@@ -234,10 +238,12 @@ class DataCollection:
                 if self.write_to_disk.wait(0.5):
                     for ds in self.datasets:
                         ds.write()
-                    # Signal completion before accepting the next trigger: a trigger arriving
-                    # in between would otherwise be followed by a stale "finished".
-                    self.write_finished.set()
-                    self.write_to_disk.clear()
+                    # Signal completion and accept the next trigger in one step: a trigger (or a
+                    # stop/start) arriving in between would otherwise be followed by a stale
+                    # "finished" or be wiped out by the late clear.
+                    with self._handoff:
+                        self.write_finished.set()
+                        self.write_to_disk.clear()
         except KeyboardInterrupt:
             pass
         finally:
@@ -248,5 +254,6 @@ class DataCollection:
         if self.write_to_disk.wait(0.5):
             for ds in self.datasets:
                 ds.write()
-            self.write_finished.set()
-            self.write_to_disk.clear()
+            with self._handoff:
+                self.write_finished.set()
+                self.write_to_disk.clear()
